@@ -34,6 +34,8 @@ def WFB (Ks : List String) (N : Nat) : Ex ℝ → Prop
   | .quad _ a => WFB Ks N a ∧ "" ∈ Ks ∧ 0 < N ∧ DomOK a.dom Ks N
   | .gauss _ _ a => WFB Ks N a ∧ "" ∈ Ks ∧ 0 < N ∧ DomOK a.dom Ks N
   | .const _ _ _ => True
+  | .bil m na nb _ a b => WFB Ks N a ∧ WFB Ks N b ∧ "" ∈ Ks ∧ m ≤ N ∧ na ≤ N ∧ nb ≤ N
+  | .varcov n a b => WFB Ks N a ∧ WFB Ks N b ∧ "" ∈ Ks ∧ 0 < N ∧ n ≤ N
 
 theorem single_eq_pick (v : Nat → ℝ) : single v = fun k i => if k = "" then v i else 0 := rfl
 
@@ -44,40 +46,40 @@ theorem jac_adjoint (Ks : List String) (N : Nat) (hK : Ks.Nodup) (e : Ex ℝ) (w
   induction e with
   | var k n =>
     intro hw ρ h y
-    simp only [lin, single_eq_pick]
+    simp only [lin, single_eq_pick, TranscReal.conj_eq]
     rw [ipB_pick_right Ks N hK "" hw.2, ipB_pick_left Ks N hK k hw.1]
   | add a b iha ihb =>
     intro hw ρ h y
-    simp only [lin]
+    simp only [lin, TranscReal.conj_eq]
     rw [ipB_add_right, ipB_add_left, iha hw.1, ihb hw.2]
   | sub a b iha ihb =>
     intro hw ρ h y
-    simp only [lin]
+    simp only [lin, TranscReal.conj_eq]
     rw [ipB_sub_right, ipB_sub_left, iha hw.1, ihb hw.2]
   | mul a b iha ihb =>
     intro hw ρ h y
-    simp only [lin]
+    simp only [lin, TranscReal.conj_eq]
     rw [ipB_add_right, ipB_add_left, ipB_mul, ipB_mul, ihb hw.2, iha hw.1]
   | scale c a iha =>
     intro hw ρ h y
-    simp only [lin]
+    simp only [lin, TranscReal.conj_eq]
     rw [ipB_mul Ks N y (fun _ _ => c), iha hw]
   | addc c neg a iha =>
     intro hw ρ h y
-    simp only [lin]
+    simp only [lin, TranscReal.conj_eq]
     rw [ipB_mask, iha hw]
   | mulc d a iha =>
     intro hw ρ h y
-    simp only [lin]
+    simp only [lin, TranscReal.conj_eq]
     rw [ipB_mul Ks N y (fun _ i => ofList d i), iha hw]
   | ptw f p a iha =>
     intro hw ρ h y
-    simp only [lin]
+    simp only [lin, TranscReal.conj_eq]
     rw [ipB_mask_mul, iha hw]
   | lin m n rows a iha =>
     intro hw ρ h y
     obtain ⟨hwa, h0, hm, hn⟩ := hw
-    simp only [lin, single_eq_pick]
+    simp only [lin, single_eq_pick, TranscReal.conj_eq]
     rw [← iha hwa, ipB_pick_right Ks N hK "" h0, ipB_pick_left Ks N hK "" h0]
     rw [rsum_congr N _ (fun i => if i < m then y "" i * rsum n (fun j => mat rows i j * (lin a ρ wm).jac h "" j) else 0)
       (fun i _ => by split <;> ring)]
@@ -95,13 +97,13 @@ theorem jac_adjoint (Ks : List String) (N : Nat) (hK : Ks.Nodup) (e : Ex ℝ) (w
   | sum a iha =>
     intro hw ρ h y
     obtain ⟨hwa, h0, hN, hd⟩ := hw
-    simp only [lin]
+    simp only [lin, TranscReal.conj_eq]
     rw [← iha hwa, ← contr_adj Ks N hK h0 hN a.dom hd]
     simp only [sci_1, one_mul]
   | vdot a b iha ihb =>
     intro hw ρ h y
     obtain ⟨hwa, hwb, h0, hN, hd⟩ := hw
-    simp only [lin]
+    simp only [lin, TranscReal.conj_eq]
     rw [ipB_add_left, ← ihb hwb, ← iha hwa, ← contr_adj Ks N hK h0 hN a.dom hd,
       ← contr_adj Ks N hK h0 hN a.dom hd, ← ipB_add_right]
     congr 1
@@ -113,36 +115,76 @@ theorem jac_adjoint (Ks : List String) (N : Nat) (hK : Ks.Nodup) (e : Ex ℝ) (w
   | getKey k a iha =>
     intro hw ρ h y
     obtain ⟨hwa, hk, h0⟩ := hw
-    simp only [lin, single_eq_pick]
+    simp only [lin, single_eq_pick, TranscReal.conj_eq]
     rw [← iha hwa, ipB_pick_right Ks N hK "" h0, ipB_pick_left Ks N hK k hk]
   | putKey k a iha =>
     intro hw ρ h y
     obtain ⟨hwa, hk, h0⟩ := hw
-    simp only [lin, single_eq_pick]
+    simp only [lin, single_eq_pick, TranscReal.conj_eq]
     rw [← iha hwa, ipB_pick_right Ks N hK k hk, ipB_pick_left Ks N hK "" h0]
   | chain f g ihf ihg =>
     intro hw ρ h y
-    simp only [lin]
+    simp only [lin, TranscReal.conj_eq]
     rw [ihf hw.1, ihg hw.2]
   | sqnorm a iha =>
     intro hw ρ h y
     obtain ⟨hwa, h0, hN, hd⟩ := hw
-    simp only [lin]
+    simp only [lin, TranscReal.conj_eq]
     rw [← iha hwa, ← contr_adj Ks N hK h0 hN a.dom hd]
   | quad d a iha =>
     intro hw ρ h y
     obtain ⟨hwa, h0, hN, hd⟩ := hw
-    simp only [lin]
+    simp only [lin, TranscReal.conj_eq]
     rw [← iha hwa, ← contr_adj Ks N hK h0 hN a.dom hd]
   | gauss data icov a iha =>
     intro hw ρ h y
     obtain ⟨hwa, h0, hN, hd⟩ := hw
-    simp only [lin]
+    simp only [lin, TranscReal.conj_eq]
     rw [← iha hwa, ← contr_adj Ks N hK h0 hN a.dom hd]
   | const en d v =>
     intro hw ρ h y
-    simp only [lin]
+    simp only [lin, TranscReal.conj_eq]
     rw [ipB_zero_right, ipB_zero_left]
+  | bil m na nb T a b iha ihb =>
+    intro hw ρ h y
+    obtain ⟨hwa, hwb, h0, hm, hna, hnb⟩ := hw
+    simp only [lin, single_eq_pick, TranscReal.conj_eq]
+    rw [ipB_add_left, ← iha hwa, ← ihb hwb, ipB_pick_right Ks N hK "" h0, ipB_pick_left Ks N hK "" h0,
+      ipB_pick_left Ks N hK "" h0]
+    rw [rsum_congr N _ (fun o => if o < m then y "" o * rsum na (fun i => rsum nb (fun j => ten T o i j *
+        ((lin a ρ wm).jac h "" i * (lin b ρ wm).val "" j + (lin a ρ wm).val "" i * (lin b ρ wm).jac h "" j))) else 0)
+      (fun o _ => by split <;> ring)]
+    rw [rsum_ite_lt m N hm]
+    rw [rsum_congr N _ (fun i => if i < na then
+        rsum m (fun o => rsum nb (fun j => ten T o i j * (lin b ρ wm).val "" j * y "" o)) * (lin a ρ wm).jac h "" i else 0)
+      (fun i _ => by split <;> ring)]
+    rw [rsum_ite_lt na N hna]
+    rw [rsum_congr N _ (fun j => if j < nb then
+        rsum m (fun o => rsum na (fun i => ten T o i j * (lin a ρ wm).val "" i * y "" o)) * (lin b ρ wm).jac h "" j else 0)
+      (fun j _ => by split <;> ring)]
+    rw [rsum_ite_lt nb N hnb]
+    exact bil_adj_algebra m na nb (ten T) (y "") ((lin a ρ wm).val "") ((lin a ρ wm).jac h "")
+      ((lin b ρ wm).val "") ((lin b ρ wm).jac h "")
+  | varcov n a b iha ihb =>
+    intro hw ρ h y
+    obtain ⟨hwa, hwb, h0, hN, hn⟩ := hw
+    simp only [lin, single_eq_pick, TranscReal.conj_eq]
+    rw [ipB_add_left, ← iha hwa, ← ihb hwb, ipB_pick_right Ks N hK "" h0, ipB_pick_left Ks N hK "" h0,
+      ipB_pick_left Ks N hK "" h0]
+    rw [rsum_congr N _ (fun i => if i = 0 then y "" i * rsum n (fun j =>
+        ((lin a ρ wm).val "" j * (lin b ρ wm).val "" j) * (lin a ρ wm).jac h "" j
+        + ((0.5 : ℝ) * ((lin a ρ wm).val "" j * (lin a ρ wm).val "" j) - (0.5 : ℝ) / (lin b ρ wm).val "" j)
+          * (lin b ρ wm).jac h "" j) else 0) (fun i _ => by split <;> simp)]
+    rw [rsum_ite_zero N hN]
+    rw [rsum_congr N _ (fun j => if j < n then
+        ((lin a ρ wm).val "" j * (lin b ρ wm).val "" j) * y "" 0 * (lin a ρ wm).jac h "" j else 0)
+      (fun j _ => by split <;> ring)]
+    rw [rsum_ite_lt n N hn]
+    rw [rsum_congr N _ (fun j => if j < n then
+        ((0.5 : ℝ) * ((lin a ρ wm).val "" j * (lin a ρ wm).val "" j) - (0.5 : ℝ) / (lin b ρ wm).val "" j) * y "" 0
+          * (lin b ρ wm).jac h "" j else 0) (fun j _ => by split <;> ring)]
+    rw [rsum_ite_lt n N hn, ← rsum_add, ← rsum_mul_left]
+    exact rsum_congr n _ _ (fun j _ => by ring)
 
 /-- non-vacuity: `sum (exp(x_a) * x_b)` over keys a, b of size 2 lives in the box {"", "a", "b"} × {0, 1} -/
 example : WFB ["", "a", "b"] 2 (.sum (.mul (.ptw .exp [] (.var "a" 2)) (.var "b" 2))) := by
